@@ -43,7 +43,9 @@ theorem scalarCheck_null (D : Defects) (S : Schema) (t : TypeDef) (v : GValue) :
   split at h
   · split at h
     · cases v <;> simp_all [jsonOf]
-    · exact absurd rfl (serializeLeaf_ne_null S t.name v .null h)
+    · split at h
+      · rename_i hv; cases v <;> simp_all [isNullV]
+      · exact absurd rfl (serializeLeaf_ne_null S t.name v .null h)
   · split at h
     · rename_i hc
       cases v <;> simp_all [jsonOf, customValidate]
